@@ -71,6 +71,20 @@ pub fn discards(mut w: impl Write) {
 	let _ = w.flush().or(Ok::<(), std::io::Error>(()));
 }
 
+/// R12.5 positive control: single-attempt writes.
+pub fn bare_writes(mut w: impl Write) -> std::io::Result<usize> {
+	let a = w.write(b"x")?;
+	let b = w.write_vectored(&[std::io::IoSlice::new(b"y")])?;
+	Ok(a + b)
+}
+
+/// R14.5 positive control: an input opened with extra flags / for writing.
+#[cfg(unix)]
+pub fn odd_open(p: &std::path::Path) -> std::io::Result<std::fs::File> {
+	use std::os::unix::fs::OpenOptionsExt;
+	std::fs::OpenOptions::new().read(true).write(true).custom_flags(0o4000).open(p)
+}
+
 pub fn panics(v: &[u8], o: Option<u8>, r: Result<u8, ()>) -> u8 {
 	let a = v[0];
 	let b = &v[1..];
